@@ -76,12 +76,14 @@
      (exists ((i Int)) (and (<= 0 i) (< i k)
         (= (bpf.RetConstant.Val (I.bpf.Instruction.unbox.bpf.RetConstant (insnAt p pc))) (enc (seccomp.SyscallGroup.Action (groupAt gs i)))))))
      :pattern ((insnAt p pc)))))
-; C05: closed return set of a whole policy program
+; C05: closed return set of a whole policy program: every return value is the encoding of the default action, of one of
+; the groups' actions, or ERRNO(ENOSYS) on x86_64 (from the statement of C05)
+(define-fun retValOK ((v (_ BitVec 32)) (ai arch.Info) (dflt (_ BitVec 32)) (gs Slice<seccomp.SyscallGroup>)) Bool
+  (or (= v (enc dflt)) (and (= (arch.Info.ID ai) #xc000003e) (= v #x00050026))
+      (exists ((i Int)) (and (<= 0 i) (< i (Slice<seccomp.SyscallGroup>.len gs)) (= v (enc (seccomp.SyscallGroup.Action (groupAt gs i))))))))
 (define-fun retsPolicy ((p Slice<I.bpf.Instruction>) (ai arch.Info) (dflt (_ BitVec 32)) (gs Slice<seccomp.SyscallGroup>)) Bool
   (forall ((pc Int)) (! (=> (and (<= 0 pc) (< pc (plen p)) ((_ is I.bpf.Instruction.box.bpf.RetConstant) (insnAt p pc)))
-     (let ((v (bpf.RetConstant.Val (I.bpf.Instruction.unbox.bpf.RetConstant (insnAt p pc)))))
-       (or (= v (enc dflt)) (and (= (arch.Info.ID ai) #xc000003e) (= v #x00050026))
-           (exists ((i Int)) (and (<= 0 i) (< i (Slice<seccomp.SyscallGroup>.len gs)) (= v (enc (seccomp.SyscallGroup.Action (groupAt gs i)))))))))
+     (retValOK (bpf.RetConstant.Val (I.bpf.Instruction.unbox.bpf.RetConstant (insnAt p pc))) ai dflt gs))
      :pattern ((insnAt p pc)))))
 ; kernel filter verifier (DESIGN.md 3.5) for the instruction kinds the compiler can emit: bpf_check_classic + seccomp_check_filter.
 ; insnStrictOK: permitted kind; loads aligned and inside seccomp_data; every jump lands on an instruction of the program.
